@@ -188,6 +188,20 @@ def run(ctx, lean, findings):
             if mod != impl:
                 ctx.disagree('I2 _materialize_template', {'kind': kind, 'value': value, 'termtype': termtype, 'datatype': dt,
                                                            'safe': safe, 'only_printable': onlyp, 'row': row}, mod, impl)
+        # the property itself at cell level, independent of the model: a template-valued IRI percent-decodes to the template with the
+        # cells substituted (no cell may be taken for already-encoded text), whatever the model says
+        if kind == 'template' and termtype == 'iri' and 'ok' in impl and onlyp == 'no' and '%' not in safe:
+            plain = ''.join(t if k == 'lit' else row[t] for k, t in segments(value))
+            body = impl['ok'][1:-1] if impl['ok'].startswith('<') and impl['ok'].endswith('>') else None
+            try:
+                dec = unquote(body, errors='strict') if body is not None else None
+            except UnicodeDecodeError:
+                dec = None
+            if dec != plain:
+                ctx.violation(f'template IRI does not percent-decode to the template with the cells substituted: {impl["ok"]!r} decodes to '
+                              f'{dec!r}, expected {plain!r}',
+                              {'object': {'kind': 'template', 'value': value, 'termtype': 'iri'}, 'rows': [dict(row)], 'fmt': 'N-TRIPLES',
+                               'cell_level': True, 'safe': safe})
 
     # ---- (I2, exhaustive part) every special character ALONE in an otherwise plain value, every data-dependent shape ----
     # (a change that skips a transformation unless some other special character occurs in the column only shows here)
